@@ -332,6 +332,22 @@ Built genCircuit(Rng &r, const GenCfg &cfg) {
       if (cfg.fracWeights) net.weight = r.chance(0.5) ? (float)r.real(0.1, 1.0) : (float)r.range(1, 6);
       s.nets.push_back(net);
     }
+    // "degree 1..many": now and then a few nets with dozens of pins (clock/reset-like)
+    if (r.chance(0.15)) {
+      int nHuge = (int)r.range(1, 3);
+      for (int i = 0; i < nHuge; ++i) {
+        NetSpec net;
+        int deg = (int)r.range(20, 90);
+        for (int p = 0; p < deg; ++p) {
+          int c = (int)r.below(n);
+          const CellSpec &k = s.cells[c];
+          net.cells.push_back(c);
+          net.xo.push_back((int)r.range(0, std::max(0, k.w)));
+          net.yo.push_back((int)r.range(0, std::max(0, k.h)));
+        }
+        s.nets.push_back(net);
+      }
+    }
   }
   // magnitude scaling: multiply everything by 2^k while staying within 2^22
   int H = Hb;
